@@ -31,6 +31,29 @@ fn probe_points(r: Reg) -> Vec<i64> {
     v
 }
 
+/// uniform, random bit width (either sign), or a registered value displaced by a random multiple of 2^k
+fn random_i64(ctx: &mut Ctx, r: Reg) -> i64 {
+    match ctx.rng.below(4) {
+        0 => ctx.rng.next() as i64,
+        1 => {
+            let w = 1 + ctx.rng.below(63) as u32;
+            let v = (ctx.rng.next() >> (64 - w)) as i64;
+            if ctx.rng.below(2) == 0 {
+                v
+            } else {
+                v.wrapping_neg().wrapping_sub(1)
+            }
+        }
+        _ => {
+            let vals = registry::values(r);
+            let x = vals[ctx.rng.below(vals.len())];
+            let k = [8u32, 16, 24, 32, 40, 48, 56][ctx.rng.below(7)];
+            let m = (ctx.rng.next() as i64) >> k << k;
+            x.wrapping_add(m)
+        }
+    }
+}
+
 fn check_int(ctx: &mut Ctx, r: Reg, i: i64) {
     ctx.eval();
     let reg = registry::is_registered(r, i);
@@ -103,12 +126,16 @@ impl Check for C17 {
     fn id(&self) -> &'static str {
         "C17"
     }
-    fn phases(&self, _tier: Tier, _b: f64) -> Vec<Phase> {
+    fn phases(&self, tier: Tier, b: f64) -> Vec<Phase> {
+        let q = tier == Tier::Quick;
         vec![
             Phase { name: "every name of every registry: to_i64, discriminant, from_i64 of the IANA value, round trip", cases: 16, exhaustive: true },
             Phase { name: "from_i64 / is_private for every integer in [-70000, 70000] (16 registries)", cases: (2 * WINDOW / CHUNK + 1) as u64, exhaustive: true },
             Phase { name: "from_i64 / is_private at 64-bit extremes and at every registered value shifted by 2^8..2^56, negated, complemented, sign-flipped", cases: 16, exhaustive: true },
             Phase { name: "label decoding classification (9 label types + 8 typed fields) on [-66000, -65000], [-300, 12000] and the probe points", cases: ((1000 + 12300) / 100 + 1 + 16) as u64, exhaustive: true },
+            Phase { name: "from_i64 / is_private on random 64-bit integers: uniform, random bit widths, registered values plus random multiples of 2^8..2^56 (thorough)", cases: if q { 0 } else { crate::mon::scale(40000, b) }, exhaustive: false },
+            Phase { name: "label decoding classification on every integer of [-70000, 70000] (thorough)", cases: if q { 0 } else { (2 * WINDOW / 100 + 1) as u64 }, exhaustive: true },
+            Phase { name: "label decoding classification on random 64-bit integers (thorough)", cases: if q { 0 } else { crate::mon::scale(4000, b) }, exhaustive: false },
         ]
     }
     fn run_case(&self, ctx: &mut Ctx, phase: usize, idx: u64) {
@@ -153,6 +180,29 @@ impl Check for C17 {
                     check_int(ctx, r, i);
                 }
             }
+            4 => {
+                for _ in 0..50 {
+                    let r = ALL_REGS[ctx.rng.below(ALL_REGS.len())];
+                    let i = random_i64(ctx, r);
+                    ctx.nontrivial(crate::rng::mix(0x1704, i as u64));
+                    check_int(ctx, r, i);
+                }
+            }
+            5 => {
+                let lo = -WINDOW + idx as i64 * 100;
+                for i in lo..(lo + 100).min(WINDOW + 1) {
+                    check_label_positions(ctx, i);
+                }
+                ctx.nontrivial(idx ^ 0x1705);
+            }
+            6 => {
+                for _ in 0..10 {
+                    let r = ALL_REGS[ctx.rng.below(ALL_REGS.len())];
+                    let i = random_i64(ctx, r);
+                    ctx.nontrivial(crate::rng::mix(0x1706, i as u64));
+                    check_label_positions(ctx, i);
+                }
+            }
             _ => {
                 let nchunks = ((1000 + 12300) / 100 + 1) as u64;
                 if idx < nchunks {
@@ -174,7 +224,7 @@ impl Check for C17 {
         }
     }
     fn rule(&self) -> String {
-        "exhaustive: every name of the 16 registry enumerations against a frozen IANA table (to_i64, discriminant, from_i64 of the registered value, round trip, no two names on one integer); from_i64 and is_private for every integer in [-70000, 70000] (covers every assigned value and the private-use boundary) plus 64-bit extremes and every registered value shifted by 2^8 ... 2^56, negated, complemented and sign-flipped (aliases under truncation); label decoding through the 9 label types and 8 typed fields (alg in header/key/KDF context, crit element, content type, kty, key op, claim key) on [-66000,-65000] u [-300,12000] and the probe points, judged by the reference model (registered -> name; unregistered private -> kept; otherwise rejected). Non-trivial = distinct (registry, integer) groups.".into()
+        "exhaustive: every name of the 16 registry enumerations against a frozen IANA table (to_i64, discriminant, from_i64 of the registered value, round trip, no two names on one integer); from_i64 and is_private for every integer in [-70000, 70000] (covers every assigned value and the private-use boundary) plus 64-bit extremes and every registered value shifted by 2^8 ... 2^56, negated, complemented and sign-flipped (aliases under truncation); label decoding through the 9 label types and 8 typed fields (alg in header/key/KDF context, crit element, content type, kty, key op, claim key) on [-66000,-65000] u [-300,12000] and the probe points, judged by the reference model (registered -> name; unregistered private -> kept; otherwise rejected). The thorough tier adds label decoding on every integer of [-70000, 70000] and from_i64 / is_private / label decoding on random 64-bit integers (uniform, random widths, registered values displaced by random multiples of 2^8..2^56). Non-trivial = distinct (registry, integer) groups.".into()
     }
     fn assumptions(&self) -> Vec<String> {
         vec!["the frozen table in harness/src/registry.rs transcribes the IANA COSE, CBOR-tag, CoAP content-format and CWT registries as of the snapshot the crate documents".into()]
